@@ -6,7 +6,7 @@ set -u
 D="$1"
 SCR=$(mktemp -d /tmp/confirm.XXXXXX)
 export GOFLAGS=-mod=mod GOPROXY=off GOSUMDB=off GOTOOLCHAIN=local
-git -C /repo archive HEAD | tar -x -C "$SCR"
+git -C /repo archive ${SEED_BASE:-HEAD} | tar -x -C "$SCR"
 rm -f "$SCR/verif_contracts.go"
 cp "$D/demo_test.go" "$SCR/zz_seeded_demo_test.go"
 cd "$SCR"
